@@ -8,6 +8,9 @@
  * then the process is killed.  Every counted call is appended to $GWV_CP_LOG (if set) as
  *     <n> <kind> <path-or-fd-path>
  * so the parent knows how many crash points a complete run has and which of them are writes.
+ * With $GWV_CP_FAIL=once|from the process is NOT killed: the k-th counted call, if it is a write
+ * call (once), or every write call from the k-th counted call on (from: the disk stays full),
+ * returns -1 with errno = ENOSPC without writing anything, and the process carries on.
  *
  * Mutating calls: open/open64/openat/openat64/creat/creat64 when the flags can create,
  * truncate or write the file; write/pwrite/pwrite64/writev on a descriptor obtained that way;
@@ -38,6 +41,7 @@ static char watch_dir[PATH_MAX];
 static size_t watch_len = 0;
 static long crash_k = 0;
 static int short_write = 0;
+static int fail_mode = 0; /* 0 = kill, 1 = fail once, 2 = fail from k on */
 static int log_fd = -1;
 static long counter = 0;
 static int inited = 0;
@@ -57,6 +61,9 @@ static void cp_init(void) {
 	if (k) crash_k = atol(k);
 	const char *s = getenv("GWV_CP_SHORT");
 	if (s && *s == '1') short_write = 1;
+	const char *f = getenv("GWV_CP_FAIL");
+	if (f && !strcmp(f, "once")) fail_mode = 1;
+	if (f && !strcmp(f, "from")) fail_mode = 2;
 	const char *l = getenv("GWV_CP_LOG");
 	if (l && *l) {
 		/* raw syscall: must not recurse into our own open() */
@@ -94,6 +101,10 @@ static void cp_log(const char *kind, const char *path) {
 static int cp_point(const char *kind, const char *path, int is_write) {
 	counter++;
 	cp_log(kind, path);
+	if (fail_mode) {
+		if (is_write && crash_k > 0 && (counter == crash_k || (fail_mode == 2 && counter > crash_k))) return 2;
+		return 0;
+	}
 	if (crash_k > 0 && counter == crash_k) {
 		if (is_write && short_write) return 1;
 		_exit(EXIT_CRASH);
@@ -205,7 +216,9 @@ ssize_t write(int fd, const void *buf, size_t n) {
 	REAL(write, ssize_t (*)(int, const void *, size_t));
 	if (fd_is_watched(fd)) {
 		cp_init();
-		if (cp_point("write", fd_path[fd], 1)) {
+		int r = cp_point("write", fd_path[fd], 1);
+		if (r == 2) { errno = ENOSPC; return -1; }
+		if (r) {
 			real_write(fd, buf, n / 2);
 			_exit(EXIT_CRASH);
 		}
@@ -217,7 +230,9 @@ ssize_t pwrite(int fd, const void *buf, size_t n, off_t off) {
 	REAL(pwrite, ssize_t (*)(int, const void *, size_t, off_t));
 	if (fd_is_watched(fd)) {
 		cp_init();
-		if (cp_point("pwrite", fd_path[fd], 1)) {
+		int r = cp_point("pwrite", fd_path[fd], 1);
+		if (r == 2) { errno = ENOSPC; return -1; }
+		if (r) {
 			real_pwrite(fd, buf, n / 2, off);
 			_exit(EXIT_CRASH);
 		}
@@ -229,7 +244,9 @@ ssize_t pwrite64(int fd, const void *buf, size_t n, off64_t off) {
 	REAL(pwrite64, ssize_t (*)(int, const void *, size_t, off64_t));
 	if (fd_is_watched(fd)) {
 		cp_init();
-		if (cp_point("pwrite64", fd_path[fd], 1)) {
+		int r = cp_point("pwrite64", fd_path[fd], 1);
+		if (r == 2) { errno = ENOSPC; return -1; }
+		if (r) {
 			real_pwrite64(fd, buf, n / 2, off);
 			_exit(EXIT_CRASH);
 		}
@@ -241,7 +258,9 @@ ssize_t writev(int fd, const struct iovec *iov, int cnt) {
 	REAL(writev, ssize_t (*)(int, const struct iovec *, int));
 	if (fd_is_watched(fd)) {
 		cp_init();
-		if (cp_point("writev", fd_path[fd], 1)) {
+		int r = cp_point("writev", fd_path[fd], 1);
+		if (r == 2) { errno = ENOSPC; return -1; }
+		if (r) {
 			/* short write: first half of the first non-empty buffer */
 			for (int i = 0; i < cnt; i++) {
 				if (iov[i].iov_len) {
@@ -259,7 +278,9 @@ ssize_t pwritev(int fd, const struct iovec *iov, int cnt, off_t off) {
 	REAL(pwritev, ssize_t (*)(int, const struct iovec *, int, off_t));
 	if (fd_is_watched(fd)) {
 		cp_init();
-		if (cp_point("pwritev", fd_path[fd], 1)) {
+		int r = cp_point("pwritev", fd_path[fd], 1);
+		if (r == 2) { errno = ENOSPC; return -1; }
+		if (r) {
 			for (int i = 0; i < cnt; i++) {
 				if (iov[i].iov_len) {
 					syscall(SYS_pwrite64, fd, iov[i].iov_base, iov[i].iov_len / 2, off);
@@ -276,7 +297,9 @@ ssize_t pwritev64(int fd, const struct iovec *iov, int cnt, off64_t off) {
 	REAL(pwritev64, ssize_t (*)(int, const struct iovec *, int, off64_t));
 	if (fd_is_watched(fd)) {
 		cp_init();
-		if (cp_point("pwritev64", fd_path[fd], 1)) {
+		int r = cp_point("pwritev64", fd_path[fd], 1);
+		if (r == 2) { errno = ENOSPC; return -1; }
+		if (r) {
 			for (int i = 0; i < cnt; i++) {
 				if (iov[i].iov_len) {
 					syscall(SYS_pwrite64, fd, iov[i].iov_base, iov[i].iov_len / 2, off);
